@@ -684,6 +684,8 @@ struct PeerConnectionInner {
     rtp_media_transports: Mutex<HashMap<u64, Arc<RtpTransport>>>,
     sctp_transport: Mutex<Option<Arc<SctpTransport>>>,
     data_channels: Arc<Mutex<Vec<std::sync::Weak<crate::transports::sctp::DataChannel>>>>,
+    /// Set once close_with_reason() has released tracks, channels and transports.
+    closed_cleanup_done: AtomicBool,
     event_tx: mpsc::UnboundedSender<PeerConnectionEvent>,
     event_rx: tokio::sync::Mutex<mpsc::UnboundedReceiver<PeerConnectionEvent>>,
     dtls_role: watch::Sender<Option<bool>>,
@@ -809,6 +811,7 @@ impl PeerConnection {
             rtp_media_transports: Mutex::new(HashMap::new()),
             sctp_transport: Mutex::new(None),
             data_channels: Arc::new(Mutex::new(Vec::new())),
+            closed_cleanup_done: AtomicBool::new(false),
             event_tx,
             event_rx: tokio::sync::Mutex::new(event_rx),
             dtls_role: dtls_role_tx,
@@ -5564,7 +5567,10 @@ impl PeerConnectionInner {
     }
 
     fn close_with_reason(&self, reason: DisconnectReason) {
-        if *self.peer_state.borrow() == PeerConnectionState::Closed {
+        // The state can already read Closed without anything having been released
+        // (the ICE state watcher publishes Closed on its own when ICE is stopped):
+        // "already cleaned up" is tracked separately from the published state.
+        if self.closed_cleanup_done.swap(true, Ordering::SeqCst) {
             return;
         }
 
@@ -5681,10 +5687,13 @@ impl PeerConnectionInner {
         // Close SCTP transport before closing DTLS/ICE to stop retransmission timers
         if let Some(sctp) = self.sctp_transport.lock().take() {
             sctp.close();
-        } else {
-            // No association was ever started (closed before DTLS completed), so
-            // there is no SCTP teardown that would end the data channels: end them
-            // here, otherwise a recv() pending on one of them never returns.
+        }
+        // End every data channel here as well: the association teardown only does
+        // it for an association that exists and is still running. Closed before
+        // DTLS completed there is none, and one whose run loop already ended no
+        // longer sees channels created since - a recv() pending on such a channel
+        // would never return.
+        {
             let channels = self.data_channels.lock();
             for weak_dc in channels.iter() {
                 if let Some(dc) = weak_dc.upgrade() {
